@@ -1,4 +1,4 @@
-// C07 — target pmerge_iters: element type Rec, Stable = false, all iterator kinds (deque / reverse inputs, deque / reverse outputs), owning comparator
+// C07 — target pmerge_iters: element type Rec, Stable = false, iterator kinds 0, 1 (deque / reverse inputs), owning comparator
 #include "C07_common.hpp"
 
 namespace c07 {
